@@ -15,7 +15,7 @@
 //! Input domain: within one collection an asset is named consistently per exchange (one `Asset` per (exchange, internal
 //! name)) and instrument internal names are unique. Collections outside that domain are probed only with VX_C11_KNOWN=1
 //! (see `known_probe`).
-use crate::{eng::Rng, report};
+use crate::{rng::Rng, report};
 use barter::{
     engine::{
         clock::HistoricalClock,
